@@ -48,6 +48,7 @@ func main() {
 	explain := flag.String("explain", "", "print a violation report")
 	variantName := flag.String("variant", "", "internal: run a single variant (default|with_tla|386) and print obligations as JSON")
 	cpuprof := flag.String("cpuprofile", "", "debug: write CPU profile")
+	all := flag.Bool("all", false, "development: load once, run every property's rules, print one verdict line per property (no evidence written)")
 	flag.Parse()
 	if *cpuprof != "" {
 		f, _ := os.Create(*cpuprof)
@@ -101,6 +102,9 @@ func main() {
 		}
 		dumpFacts(p, *dump)
 		return
+	}
+	if *all {
+		os.Exit(runAll(*repo))
 	}
 	rule := registry[*prop]
 	if rule == nil {
@@ -303,4 +307,45 @@ func trimList(ss []string, n int) string {
 		return strings.Join(ss[:n], "; ") + fmt.Sprintf("; ... (%d more)", len(ss)-n)
 	}
 	return strings.Join(ss, "; ")
+}
+
+// runAll is the development mode behind -all: one load, every property, no evidence files.
+func runAll(repo string) int {
+	p, err := Load(repo, variants["default"])
+	if err != nil {
+		fmt.Println("LOAD-FAILED", err)
+		return 2
+	}
+	var ids []string
+	for id := range registry {
+		ids = append(ids, id)
+	}
+	sort.Strings(ids)
+	rc := 0
+	for _, id := range ids {
+		rule := registry[id]
+		c, fails := runOnProg(p, rule)
+		p.anchor = nil
+		fails = append(fails, checkFloors(id, c)...)
+		fails = append(fails, checkStaleExceptions(id, c)...)
+		var lines []string
+		for _, fl := range fails {
+			lines = append(lines, "ENGINE: "+fl)
+		}
+		for _, o := range c.Obs {
+			if o.Status == StViolated || o.Status == StUndecided {
+				lines = append(lines, fmt.Sprintf("%s: [%s] %s in %s at %s", strings.ToUpper(o.Status), o.Rule, o.Construct, o.Func, o.Site))
+			}
+		}
+		if len(lines) == 0 {
+			fmt.Printf("PASS %s\n", id)
+			continue
+		}
+		rc = 1
+		fmt.Printf("FAIL %s\n", id)
+		for _, l := range lines {
+			fmt.Printf("  %s\n", l)
+		}
+	}
+	return rc
 }
